@@ -12,13 +12,13 @@ def unify_nontrivial(case):
 
 JOBS = {
     "unify-plain": dict(module="MC_Unify", constants={"Slice": "plain"}, invariants=UNIFY_INV,
-                        nontrivial=unify_nontrivial, timeout={"quick": 300, "thorough": 1800}),
+                        nontrivial=unify_nontrivial, timeout={"quick": 900, "thorough": 1800}),
     "unify-laws": dict(module="MC_Unify", constants={"Slice": "laws"}, invariants=UNIFY_INV,
-                       nontrivial=unify_nontrivial, timeout={"quick": 300, "thorough": 900}),
+                       nontrivial=unify_nontrivial, timeout={"quick": 900, "thorough": 900}),
     "unify-sess": dict(module="MC_Unify", constants={"Slice": "sess"}, invariants=UNIFY_INV,
-                       nontrivial=unify_nontrivial, timeout={"quick": 300, "thorough": 1800}),
+                       nontrivial=unify_nontrivial, timeout={"quick": 900, "thorough": 1800}),
     "unify-fn": dict(module="MC_Unify", constants={"Slice": "fn"}, invariants=UNIFY_INV,
-                     nontrivial=unify_nontrivial, timeout={"quick": 300, "thorough": 900}),
+                     nontrivial=unify_nontrivial, timeout={"quick": 900, "thorough": 900}),
     "unify-arith": dict(module="MC_Unify", constants={"Slice": "arith"}, invariants=UNIFY_INV,
                         nontrivial=unify_nontrivial, timeout={"quick": 900, "thorough": 3000}),
 }
@@ -59,6 +59,9 @@ JOBS["session"] = dict(module="MC_Session", constants=dict(Slice="session", Dept
                                                            Bug_OrTailAfterCut="FALSE", Bug_NotStaysArmed="FALSE", Bug_StaleStopFlag="FALSE"),
                        subst=BIP_SUBST, invariants=["EachRunIsItsOwnSLD", "NoSpuriousTimeout", "Terminates", "Emit"], constraint="WithinBudget",
                        timeout={"quick": 1200, "thorough": 3600})
+
+JOBS["knowledge"] = dict(module="MC_Knowledge", constants=dict(Slice="knowledge", Depth=12), subst=BIP_SUBST,
+                         invariants=["KBIsHistory", "KeysApart", "NoEmptyEntry", "FlatEquivalent", "Emit"], timeout={"quick": 900, "thorough": 3600})
 
 TIMER_INV = ["NoFalseTimeout", "RealAnswers", "FastUndisturbed", "NoLateFire", "CancelReturns", "Emit"]
 JOBS["timer"] = dict(module="MC_Timer", constants=dict(Slice="timer", NQ=2, GenerationFix="TRUE"), invariants=TIMER_INV,
@@ -170,6 +173,12 @@ PROPS["X01"] = dict(jobs=["solver-time"], level="model_checking",
                     rule="time(G) around calls, conjunctions, disjunctions, printing and failing goals and not(...), alone / right and left of multi-answer goals / in a disjunction / nested / under not: "
                          "G is asked once, the elapsed time is written when the search for its first answer ends, a second request fails silently (Solver.tla TimeCall / TimeResult against SLD.tla)",
                     assumptions=["the text written by time(...) is compared up to the two numbers", "cut inside time(...) is outside every claim"])
+
+PROPS["X02"] = dict(jobs=["knowledge"], level="model_checking",
+                    rule="a knowledge base built up in batches: every sequence of 1-3 (thorough 4) clauses over a pool (p/1 facts and a rule, p/2 fact and rule, q/1 facts) divided into batches in every way; "
+                         "TLC steps add_rules' loop (Knowledge.tla: KBIsHistory, KeysApart, NoEmptyEntry, FlatEquivalent); the real knowledge base is built batch by batch from constructed rules, from parsed rules "
+                         "and from one source file per batch, and count_rules / get_rule / format_kb and the answers of four queries are compared",
+                    assumptions=[])
 
 LEVEL_TEXT = ("TLC explores the relevant state machine of the TLA+ specification exhaustively over a bounded universe, checks the property as "
               "invariants of the specification against an independent declarative definition in the same modules, and every explored behaviour "
